@@ -9,6 +9,10 @@
  *   md <msg> <sender> <local> <host> <hostname> <time> <collide> <faults>      maildir delivery
  *   mb <msg> <sender> <local> <host> <time> <box|absent> <faults>               mbox delivery
  *   mc <n> <sched|-> <time> <box|absent> <faults> <msg1> <sender1> ... <msgn> <sendern>   n concurrent mbox deliveries
+ *   mm <n> <time> <collide> <hostname> <local> <host> <faults> {<msg> <sender> <childpid> <at> <dt> <mua>} x n
+ *        n maildir deliveries into ONE maildir: delivery 0 first; delivery j with at=k>0 runs completely while the child of delivery 0 is
+ *        stopped before its k-th call (two live children), with at=0 after the previous ones have exited (restart), dt seconds
+ *        later, after a mail reader has moved the messages of new/ to cur/ if mua=1; processes of delivery j: P(2j), P(2j+1)
  *   faults: "-" or  proc:call:err[,proc:call:err]   err = errno | -1 short write | -3 clock jumps 100000 s (alarm fires)
  *           | -4 the process is killed before the call (maildir child only)
  *
@@ -91,6 +95,7 @@ typedef struct {
   deliv d[3];
   char local[300], host[300];
   long time; int collide;
+  long pid[3]; int at[3]; long dt[3]; int mua[3];      /* mm: pid of the child, nesting point, delay, reader */
   int boxabsent; unsigned char box[20000]; size_t bn;
   simfault f[4]; int nf;
 } kase;
@@ -113,7 +118,7 @@ static int (*tramps[3])(void) = { tramp_a, tramp_b, tramp_c };
 static void tmpname(char *o, size_t cap, const char *sub, long t) {
   char hn[80]; size_t n = g_hostlen < 64 ? g_hostlen : 64; memcpy(hn, g_hostname, n); hn[n] = 0;
   hn[strnlen(hn, 64)] = 0;
-  snprintf(o, cap, MDIR "/%s/%ld.%d.%s", sub, t, PID0 + 1, hn);
+  snprintf(o, cap, MDIR "/%s/%ld.%ld.%s", sub, t, K.pid[0], hn);
 }
 static hbuf pre;                       /* description of files that exist before the delivery */
 static void prefile(const char *sub, long t) {
@@ -132,7 +137,8 @@ static void world(void) {
   W.clock = K.time;
   sim_mkdir_p(HOME, 1000, 0700);
   pre.n = 0;
-  if (!strcmp(K.kind, "md")) {
+  sim_gate_hook = 0;
+  if (!strcmp(K.kind, "md") || !strcmp(K.kind, "mm")) {
     if (K.collide != 9) { sim_mkdir_p(MDIR "/tmp", 1000, 0700); sim_mkdir_p(MDIR "/new", 1000, 0700); sim_mkdir_p(MDIR "/cur", 1000, 0700); }
     switch (K.collide) {
       case 1: prefile("tmp", K.time); break;
@@ -145,10 +151,10 @@ static void world(void) {
   for (int i = 0; i < K.n; i++) {
     char mp[40]; snprintf(mp, sizeof mp, "/msg%d", i);
     int ino = sim_mkfile(mp, K.d[i].msg, K.d[i].mn, 0, 0644);
-    simproc *p = sim_proc(2 * i, "qmail-local", PID0 + 2 * i, 1000, "/");
+    simproc *p = sim_proc(2 * i, "qmail-local", !strcmp(K.kind, "mm") ? K.pid[i] - 1 : PID0 + 2 * i, 1000, "/");
     p->fd[0].kind = SFD_FILE; p->fd[0].ino = ino; p->fd[0].off = 0; p->fd[0].flags = O_RDONLY; W.ino[ino].nopen++;
     sim_fd_sink(p, 1); sim_fd_sink(p, 2);
-    strcpy(g_alias[i], !strcmp(K.kind, "md") ? "./Maildir/" : "./Mailbox");
+    strcpy(g_alias[i], K.kind[1] == 'd' || K.kind[1] == 'm' ? "./Maildir/" : "./Mailbox");
     char **a = g_argv[i]; int n = 0;
     a[n++] = "qmail-local"; a[n++] = "u"; a[n++] = HOME; a[n++] = K.local; a[n++] = ""; a[n++] = "";
     a[n++] = K.host; a[n++] = K.d[i].sender; a[n++] = g_alias[i]; a[n] = 0; g_argc[i] = n;
@@ -197,6 +203,14 @@ static void record_calls(int proc) {
 
 /* ------------------------------------------------------------------ maildir */
 static int md_final_only;
+/* did a link() of the run just made return 0?  (the implementation's own result, read from its trace: "... link a b -> 0") */
+static int trace_linked(void) {
+  char *s = (char *)sim_trace.p; size_t n = sim_trace.n, i = 0;
+  while (i < n) { size_t j = i; while (j < n && s[j] != '\n') j++;
+    if (j - i > 12 && memmem(s + i, j - i, " link ", 6) && !memcmp(s + j - 5, " -> 0", 5)) return 1;
+    i = j + 1; }
+  return 0;
+}
 static void run_md(void) {
   world();
   sim_trace_on = 1;
@@ -212,6 +226,7 @@ static void run_md(void) {
   if (pre.n) fwrite(pre.p, 1, pre.n, h_out); else fputc('-', h_out);
   fputc('\n', h_out);
   print_trace(); record_calls(1);
+  sim_trace_on = 0;
   fprintf(h_out, "EXIT %d ncalls=%lu faultfired=%d child=%d err=", code, total, sim_fault_fired, P[1].used ? P[1].exitcode : -1);
   h_hex(W.sink[1].p, W.sink[1].n); fprintf(h_out, " out="); h_hex(W.sink[0].p, W.sink[0].n); fputc('\n', h_out);
   sim_trace_on = 0;
@@ -222,11 +237,75 @@ static void run_md(void) {
     for (int mode = CR_KEEP; mode <= CR_HALF; mode++) {
       world();
       if (k <= total) sim_crash_before = k;
+      sim_trace_on = 1;
       sim_run(&P[0], tramps[0]);
+      sim_trace_on = 0;
+      int linked = trace_linked();
       sim_apply_crash(mode);
-      fprintf(h_out, "S %lu %d", k, mode); list_dir("new"); list_dir("tmp"); fputc('\n', h_out);
+      fprintf(h_out, "S %lu %d linked=%d", k, mode, linked); list_dir("new"); list_dir("tmp"); fputc('\n', h_out);
     }
   sim_trace_on = 1;
+  fprintf(h_out, "END\n");
+}
+
+/* ------------------------------------------------------------------ several maildir deliveries into one maildir
+ * Delivery 0 runs as in run_md.  A delivery j with at[j] = k > 0 runs to completion inside the gate of the k-th call of the child
+ * of delivery 0 (sim_gate_hook): both children exist at the same time, the events of j lie between two calls of P1.  A delivery
+ * with at[j] = 0 runs after the earlier ones have exited: a restart, dt[j] seconds later, optionally after a mail reader has
+ * moved what is in new/ (not the files placed there by prefile()) to cur/.  No crash enumeration here (that is run_md's). */
+static int mm_started[3], mm_code[3];
+static void mm_run(int j) {
+  mm_started[j] = 1;
+  mm_code[j] = sim_run(&P[2 * j], tramps[j]);
+}
+static void mm_hook(simproc *p, const char *what) {
+  (void)what;
+  if (p->idx != 1) return;
+  for (int j = 1; j < K.n; j++) if (K.at[j] > 0 && !mm_started[j] && p->ncalls == K.at[j]) {
+    simproc *sv = fk_parent; mm_run(j); fk_parent = sv;
+  }
+}
+static void mm_reader(void) {
+  char pfx[100]; int pl = snprintf(pfx, sizeof pfx, MDIR "/new/");
+  for (int i = 0; i < W.ndent; i++) if (W.dent[i].ino >= 0 && !strncmp(W.dent[i].path, pfx, pl)) {
+    siminode *x = &W.ino[W.dent[i].ino];
+    if (x->cur.n >= 4 && !memcmp(x->cur.p, "OLD:", 4)) continue;
+    char nm[200]; snprintf(nm, sizeof nm, "%s", W.dent[i].path + pl);
+    snprintf(W.dent[i].path, sizeof W.dent[i].path, MDIR "/cur/%s", nm);
+    sim_tr("MUA %s\n", nm);
+  }
+}
+static void run_mm(void) {
+  world();
+  sim_gate_hook = mm_hook;
+  sim_trace_on = 1;
+  for (int j = 0; j < 3; j++) { mm_started[j] = 0; mm_code[j] = -1; }
+  mm_run(0);
+  for (int j = 1; j < K.n; j++) if (!mm_started[j]) {
+    if (K.dt[j]) { W.clock += K.dt[j]; sim_tr("TICK %ld\n", K.dt[j]); }
+    if (K.mua[j]) mm_reader();
+    mm_run(j);
+  }
+  sim_gate_hook = 0;
+  fprintf(h_out, "CASE kind=mm n=%d", K.n);
+  fprintf(h_out, " local="); h_hex((unsigned char *)K.local, strlen(K.local));
+  fprintf(h_out, " host="); h_hex((unsigned char *)K.host, strlen(K.host));
+  fprintf(h_out, " hn="); h_hex((unsigned char *)g_hostname, g_hostlen);
+  fprintf(h_out, " time=%ld collide=%d faults=", K.time, K.collide); print_faults();
+  fprintf(h_out, " dir=%s pre=", MDIR);
+  if (pre.n) fwrite(pre.p, 1, pre.n, h_out); else fputc('-', h_out);
+  for (int i = 0; i < K.n; i++) {
+    fprintf(h_out, " msg%d=", i); h_hex(K.d[i].msg, K.d[i].mn);
+    fprintf(h_out, " sender%d=", i); h_hex((unsigned char *)K.d[i].sender, strlen(K.d[i].sender));
+    fprintf(h_out, " pid%d=%ld at%d=%d dt%d=%ld mua%d=%d", i, K.pid[i], i, K.at[i], i, K.dt[i], i, K.mua[i]);
+  }
+  fputc('\n', h_out);
+  print_trace();
+  for (int j = 0; j < K.n; j++) {
+    fprintf(h_out, "X %d %d started=%d child=%d err=", j, mm_code[j], mm_started[j], P[2 * j + 1].used ? P[2 * j + 1].exitcode : -1);
+    h_hex(W.sink[2 * j + 1].p, W.sink[2 * j + 1].n); fputc('\n', h_out);
+  }
+  fprintf(h_out, "L"); list_dir("new"); list_dir("tmp"); list_dir("cur"); fputc('\n', h_out);
   fprintf(h_out, "END\n");
 }
 
@@ -332,12 +411,13 @@ static void kclear(const char *kind) {
   snprintf(K.kind, sizeof K.kind, "%s", kind); K.n = 1; K.nf = 0; K.collide = 0; K.boxabsent = 0; K.bn = 0; K.time = 1000000000;
   strcpy(K.local, "u"); strcpy(K.host, "h.example"); K.d[0].mn = 0; strcpy(K.d[0].sender, "s@x.org");
   set_hostname("mx.example", 10);
+  for (int i = 0; i < 3; i++) { K.pid[i] = PID0 + 1 + 2 * i; K.at[i] = 0; K.dt[i] = 0; K.mua[i] = 0; }
 }
 static void set_msg(int i, const void *s, size_t n) { if (n > MAXMSG) n = MAXMSG; memcpy(K.d[i].msg, s, n); K.d[i].mn = n; }
 static void fault1(int proc, int call, int err) { K.f[0].proc = proc; K.f[0].callno = call; K.f[0].err = err; K.nf = 1; }
 
 static void run_case(void) {
-  if (!strcmp(K.kind, "md")) run_md(); else if (!strcmp(K.kind, "mb")) run_mb(); else run_mc();
+  if (!strcmp(K.kind, "md")) run_md(); else if (!strcmp(K.kind, "mm")) run_mm(); else if (!strcmp(K.kind, "mb")) run_mb(); else run_mc();
 }
 
 static int stdin_cases(void) {
@@ -357,6 +437,22 @@ static int stdin_cases(void) {
       int hl = unhex(tok[5], hn, sizeof hn); if (hl < 0) continue; set_hostname(hn, hl);
       K.time = atol(tok[6]); K.collide = atoi(tok[7]); if (parse_faults(tok[8])) continue;
       run_case();
+    } else if (!strcmp(tok[0], "mm") && nt >= 8) {
+      kclear("mm"); unsigned char hn[100];
+      K.n = atoi(tok[1]); if (K.n < 1 || K.n > 3 || nt < 8 + 6 * K.n) continue;
+      K.time = atol(tok[2]); K.collide = atoi(tok[3]);
+      int hl = unhex(tok[4], hn, sizeof hn); if (hl < 0) continue; set_hostname(hn, hl);
+      if (unhex_str(tok[5], K.local, sizeof K.local) || unhex_str(tok[6], K.host, sizeof K.host) || parse_faults(tok[7])) continue;
+      int bad = 0;
+      for (int i = 0; i < K.n; i++) { char **t = tok + 8 + 6 * i;
+        int mn = unhex(t[0], K.d[i].msg, MAXMSG); if (mn < 0) { bad = 1; break; } K.d[i].mn = mn;
+        if (unhex_str(t[1], K.d[i].sender, sizeof K.d[i].sender)) { bad = 1; break; }
+        K.pid[i] = atol(t[2]); K.at[i] = atoi(t[3]); K.dt[i] = atol(t[4]); K.mua[i] = atoi(t[5]);
+        if (K.pid[i] < 2 || K.dt[i] < 0 || K.at[i] < 0) bad = 1; }
+      K.at[0] = 0; K.dt[0] = 0; K.mua[0] = 0;
+      /* two children that exist at the same time have different pids (the operating system's guarantee) */
+      for (int i = 1; i < K.n; i++) if (K.at[i] > 0) { if (K.pid[i] == K.pid[0]) bad = 1; for (int j = 1; j < i; j++) if (K.at[j] == K.at[i]) bad = 1; }
+      if (!bad) run_case();
     } else if (!strcmp(tok[0], "mb") && nt >= 8) {
       kclear("mb");
       int mn = unhex(tok[1], K.d[0].msg, MAXMSG); if (mn < 0) continue; K.d[0].mn = mn;
@@ -646,6 +742,43 @@ static void generate(int level, int nrandom, uint64_t seed) {
       if (!md) set_box((int)(f % 2) * 2);
       fault_sweep(KR, level >= 3 ? 2 : 1, 1);
     } }
+  /* (12) several deliveries into one maildir (kind mm): restarts with the same / another pid, 0..3 s later, with and without a
+   *      reader emptying new/, stale tmp/ and new/ names; a second delivery running completely between two calls of the first
+   *      child (every call index), same second, other pid; three deliveries: one nested, one restart re-using a pid */
+  { static const char *M[] = { "Subject: a\n\none\n", "From x\nsecond message, no newline", "" };
+    long c = 0;
+    for (int same = 0; same < 2; same++) for (int dt = 0; dt < 4; dt++) for (int mua = 0; mua < 2; mua++) for (int col = 0; col < 3; col++, c++) {
+      if (!mine()) continue;
+      kclear("mm"); K.n = 2; K.collide = col; K.time = TIMES[c % 3];
+      set_msg(0, M[c % 3], strlen(M[c % 3])); set_msg(1, M[(c / 3) % 3], strlen(M[(c / 3) % 3])); strcpy(K.d[1].sender, SENDERS[c % NSENDERS]);
+      K.pid[1] = same ? K.pid[0] : K.pid[0] + 5; K.dt[1] = dt; K.mua[1] = mua;
+      run_case();
+    }
+    for (int v = 0; v < 64; v++, c++) {
+      if (!mine()) continue;
+      kclear("mm"); K.n = 3; K.collide = (v >> 5) & 1;
+      for (int i = 0; i < 3; i++) set_msg(i, M[(v + i) % 3], strlen(M[(v + i) % 3]));
+      K.pid[1] = K.pid[0]; K.pid[2] = (v & 1) ? K.pid[0] : K.pid[0] + 2;
+      K.dt[1] = (v >> 1) & 1; K.dt[2] = ((v >> 2) & 1) * 2; K.mua[1] = (v >> 3) & 1; K.mua[2] = (v >> 4) & 1;
+      run_case();
+    }
+    { kclear("mm"); K.n = 1; set_msg(0, M[0], strlen(M[0])); int c0, c1; clean_calls(&c0, &c1);
+      for (int col = 0; col < 3; col++) for (int at = 1; at <= c1 + 1; at++) for (int third = 0; third < 2; third++, c++) {
+        if (!mine()) continue;
+        kclear("mm"); K.n = 2 + third; K.collide = col;
+        set_msg(0, M[0], strlen(M[0])); set_msg(1, M[c % 3], strlen(M[c % 3])); set_msg(2, M[1], strlen(M[1]));
+        K.pid[1] = K.pid[0] + 1 + (c % 2); K.at[1] = at;
+        K.pid[2] = K.pid[1]; K.dt[2] = c % 3; K.mua[2] = (c / 3) % 2;      /* the restart re-uses the pid of the nested one */
+        run_case();
+      }
+      /* a failing call in the nested / restarted delivery */
+      for (int at = 0; at <= c1; at += 3) for (int fc = 1; fc <= c1; fc++, c++) {
+        if (!mine()) continue;
+        kclear("mm"); K.n = 2; set_msg(0, M[0], strlen(M[0])); set_msg(1, M[1], strlen(M[1]));
+        K.pid[1] = at ? K.pid[0] + 1 : K.pid[0]; K.at[1] = at; fault1(3, fc, (int[]){ ENOSPC, EIO, -3, -4 }[c % 4]);
+        run_case();
+      } }
+  }
   /* (9) seeded random single deliveries */
   for (int r = 0; r < nrandom; r++) {
     if (!mine()) continue;
